@@ -306,7 +306,11 @@ impl Session {
             "dump" => self.dump(),
             "inv" => if self.validate().is_none() { "1".into() } else { "0".into() },
             "removed" => self.removed(),
-            _ => panic!("unknown request {}", req),
+            // the convenience functions and setters of suite_fcreation.rs
+            _ => match crate::suite_fcreation::exec_creation(self, &w) {
+                Some((r, ret)) => { returned = ret; r }
+                None => panic!("unknown request {}", req),
+            },
         };
         self.relabel(returned);
         let resp = if resp == "NEW" {
@@ -484,9 +488,9 @@ const OPS: &[(&str, usize)] = &[
 ];
 
 fn pick_op(rng: &mut Rng) -> &'static str {
-    let total: usize = OPS.iter().map(|o| o.1).sum();
+    let total: usize = OPS.iter().chain(crate::suite_fcreation::OPS.iter()).map(|o| o.1).sum();
     let mut x = rng.below(total);
-    for (n, w) in OPS {
+    for (n, w) in OPS.iter().chain(crate::suite_fcreation::OPS.iter()) {
         if x < *w {
             return n;
         }
@@ -508,6 +512,59 @@ fn gen_value(rng: &mut Rng) -> GValue {
         9 => GValue::Attribute(*rng.pick(&[2usize, 3, 0, 6]), small_text(rng)),
         10 => GValue::Namespace(*rng.pick(&[0usize, 2, 3]), *rng.pick(&[0usize, 2, 3])),
         _ => GValue::Document,
+    }
+}
+
+/// The implementation-side oracles after one call (`before` / `after`: the dumps around it):
+/// no panic (C06), nothing changed on Err (C06), structural validity (C04).  false = stop.
+fn oracles(s: &mut Session, sink: &mut Sink, op: &str, req: &str, resp: &str, before: &str, after: &str) -> bool {
+    // element-only accessors panic on non-elements: documented
+    let documented_panic = matches!(op, "map_insert" | "map_remove" | "map_clear" | "set_name") || crate::suite_fcreation::documented_panic(op);
+    if resp == "panic" && !documented_panic {
+        sink.fail("C06", &format!("C06:{}-panics", op), &format!("{} panicked", req), &s.history);
+        return false; // state after a panic is not meaningful
+    }
+    if resp == "panic" {
+        return false;
+    }
+    if resp.starts_with("err:") && after != before {
+        sink.fail("C06", &format!("C06:{}-err-not-atomic", op), &format!("{} returned {} but the forest changed", req, resp), &s.history);
+    }
+    s.exec(sink, "inv");
+    if let Some(why) = s.validate() {
+        sink.fail("C04", &format!("C04:{}:{}", op, why), &format!("after {}: {}", req, why), &s.history);
+        return false;
+    }
+    true
+}
+
+/// Directed small scope for the calls of suite_fcreation.rs: every such call on every node of a
+/// few mixed-content forests (`<a>x<b/>y</a>` …: the element handed to
+/// `new_document_with_element` sits between two text nodes).
+pub fn directed_creation(sink: &mut Sink) {
+    for forest in crate::suite_fcreation::directed_forests() {
+        let n: usize = forest.iter().map(|t| t.size()).sum();
+        for a in 0..n {
+            for req in crate::suite_fcreation::directed_reqs(a) {
+                let mut s = Session::new();
+                s.exec(sink, "reset");
+                for t in &forest {
+                    build_ops(&mut s, sink, t);
+                }
+                let before = s.dump();
+                let op = req.split(' ').next().unwrap().to_string();
+                sink.stat("creation.directed.cases");
+                if let Some(k) = crate::suite_fcreation::classify(&s, &req) {
+                    sink.stat(&format!("creation.{}", k));
+                }
+                let resp = s.exec(sink, &req);
+                sink.stat(&format!("resp.{}", resp.split(' ').next().unwrap()));
+                let after = s.exec(sink, "dump");
+                if oracles(&mut s, sink, &op, &req, &resp, &before, &after) {
+                    s.exec(sink, "removed");
+                }
+            }
+        }
     }
 }
 
@@ -563,7 +620,7 @@ pub fn one_history(rng: &mut Rng, sink: &mut Sink, n_ops: usize, allow_cons_off:
             .collect();
         if !between.is_empty() && rng.chance(1, 3) {
             b = *rng.pick(&between);
-            op = *rng.pick(&["append", "prepend", "insert_after", "insert_before", "replace", "detach", "remove", "unwrap", "wrap"]);
+            op = *rng.pick(&["append", "prepend", "insert_after", "insert_before", "replace", "detach", "remove", "unwrap", "wrap", "new_doc_with", "new_doc_with", "new_doc_with"]);
         }
         let elems: Vec<usize> = live.iter().copied().filter(|&l| s.xot.is_element(s.nodes[l])).collect();
         let e = if elems.is_empty() || rng.chance(1, 8) { a } else { *rng.pick(&elems) };
@@ -601,27 +658,19 @@ pub fn one_history(rng: &mut Rng, sink: &mut Sink, n_ops: usize, allow_cons_off:
                 if !allow_cons_off { continue; }
                 format!("cons {}", rng.below(2))
             }
+            // `b` is a node between two text nodes when the bias above chose the operation
+            "new_doc_with" if between.contains(&b) && s.xot.is_element(s.nodes[b]) => format!("new_doc_with {}", b),
+            _ if crate::suite_fcreation::is_creation_op(op) => crate::suite_fcreation::gen_req(op, rng, &s, &live),
             _ => unreachable!(),
         };
         sink.stat(&format!("op.{}", op));
+        if let Some(k) = crate::suite_fcreation::classify(&s, &req) {
+            sink.stat(&format!("creation.{}", k));
+        }
         let resp = s.exec(sink, &req);
         sink.stat(&format!("resp.{}", resp.split(' ').next().unwrap()));
         let after = s.exec(sink, "dump");
-        // element-only accessors panic on non-elements: documented
-        let documented_panic = matches!(op, "map_insert" | "map_remove" | "map_clear" | "set_name");
-        if resp == "panic" && !documented_panic {
-            sink.fail("C06", &format!("C06:{}-panics", op), &format!("{} panicked", req), &s.history);
-            return; // state after a panic is not meaningful
-        }
-        if resp == "panic" {
-            return;
-        }
-        if resp.starts_with("err:") && after != before {
-            sink.fail("C06", &format!("C06:{}-err-not-atomic", op), &format!("{} returned {} but the forest changed", req, resp), &s.history);
-        }
-        s.exec(sink, "inv");
-        if let Some(why) = s.validate() {
-            sink.fail("C04", &format!("C04:{}:{}", op, why), &format!("after {}: {}", req, why), &s.history);
+        if !oracles(&mut s, sink, op, &req, &resp, &before, &after) {
             return;
         }
         if rng.chance(1, 4) {
@@ -640,6 +689,7 @@ pub fn one_history(rng: &mut Rng, sink: &mut Sink, n_ops: usize, allow_cons_off:
 pub fn run(seed: u64, count: usize, tier: &str, sink: &mut Sink) {
     let mut rng = Rng::new(seed ^ 0xF0E5);
     let n_ops = if tier == "quick" { 25 } else { 60 };
+    directed_creation(sink);
     for i in 0..count {
         one_history(&mut rng, sink, n_ops, i % 4 == 3);
     }
